@@ -82,7 +82,7 @@ func c12Decode(i int64) c12Tuple {
 func init() {
 	core.Register(&core.Monitor{
 		ID:        "C12",
-		Technique: "reference-model monitor (exact big.Rat interval arithmetic): coverage, error regime, mutual consistency of the two directions",
+		Technique: "reference-model monitor (exact big.Rat interval arithmetic): coverage, error regime, mutual consistency of the two directions + concurrent scenarios (4-64 goroutines issuing the same judged calls at once) + hostile scheduler widths",
 		Rule: "per case: one conversion tuple (direction, source index, source zoom, target zoom, base exponent E, base offset O) with zooms/E in 0..35 (emphasis on 0, 24-26, 35), O in {0, powers of two, odd, negative, small, 2^24, 2^25}, " +
 			"source index uniform or at the bottom/top of its zoom, 0, -1, or just outside the zoom's range. Oracle: error iff source index missing or exact cover leaves the target range (never when the metre-widened cover fits); " +
 			"otherwise min<=max, [min,max] contains the exact cover and lies inside the metre-widened cover; the opposite function called on up to 64 returned indices must return a range containing the source index. " +
